@@ -21,7 +21,8 @@ Out(i) == Outcome(RunOf(i))
 
 CellTypedUnlessStuck == row > 0 =>
   LET r == RunOf(row) IN
-  (r.sig = "error" /\ r.v \notin DocErrors) \/ CellsTyped(r.st)
+  Cases[row].negative          \* deliberately ill-typed (near-miss) programs are not expected to be sound
+     \/ (r.sig = "error" /\ r.v \notin DocErrors) \/ CellsTyped(r.st)
      \/ (PrintT(<<"CELLTYPE", Cases[row].id>>) /\ FALSE)
 
 Init == row = 0
@@ -32,6 +33,6 @@ Spec == Init /\ [][Next]_row
 Emit ==
   /\ TLCGet("stats").distinct > 0
   /\ ndJsonSerialize(IOEnv.VERIF_OUT \o "/gen_cases.ndjson",
-        [i \in 1..N |-> [id |-> Cases[i].id, suite |-> "gen", prog |-> Cases[i].prog, exp |-> Out(i)]])
+        [i \in 1..N |-> [id |-> Cases[i].id, suite |-> "gen", prog |-> Cases[i].prog, negative |-> Cases[i].negative, exp |-> Out(i)]])
   /\ PrintT(<<"CASES", N>>)
 =============================================================================
